@@ -508,6 +508,13 @@ static void runLoops(const std::string& line)
 		Elem ext = mk(5); const Elem& item = (ii < a.GetCount()) ? a[ii] : ext; a.AddBack(item); });
 	else if (fn == "aaddbackm") guardChild<A, false, std::function<void(A&)>, true>(n, cap, [=] (A& a) {    // the real Array::AddBack(Item&&)
 		Elem ext = mk(5); if (ii < a.GetCount()) a.AddBack(std::move(a[ii])); else a.AddBack(std::move(ext)); });
+	else if (fn == "sremove" || fn == "sinsert")
+	{	// ArrayShifter<SegmentedArray> (cnst, 4 items per segment): validates Gen_ShiftLoopsSeg.v directly
+		typedef SegmentedArray<Elem, CountMM, SegmentedArrayItemTraits<Elem, CountMM>, SegmentedArraySettings<SegmentedArrayItemCountFunc::cnst, 2>> S;
+		if (fn == "sremove") guardChild<S, false, std::function<void(S&)>, true>(n, cap, [=] (S& a) { internal::ArrayShifter<S>::Remove(a, i, c); });
+		else guardChild<S, false, std::function<void(S&)>, true>(n, cap, [=] (S& a) {
+			Elem ext = mk(5); const Elem& item = (ii < a.GetCount()) ? a[ii] : ext; internal::ArrayShifter<S>::InsertNogrow(a, i, c, item); });
+	}
 	else std::puts("unsupported-loop");
 }
 static void runGuard(const std::string& line)
@@ -529,6 +536,19 @@ static void runGuard(const std::string& line)
 		const Elem& ref = (i < n) ? a[i] : (i == n && a.GetItems() != nullptr) ? *(a.GetItems() + n) : ext;
 		size_t r = a.pvIndexOf(ref);
 		std::puts(r == SIZE_MAX ? "max" : std::to_string(r).c_str());
+	}
+	else if (fn == "shrink" || fn == "segshrink")
+	{	// the real Shrink(capacity): the capacity afterwards (validates the generated clamps Shrink_clamp / SegShrink_clamp)
+		if (fn == "shrink")
+		{
+			A a; if (cap > 0) a.Reserve(cap); for (size_t k = 0; k < n; ++k) { Elem e = mk(ll(10 + k)); a.AddBack(e); }
+			a.Shrink(c); std::printf("cap %llu\n", (unsigned long long)a.GetCapacity());
+		}
+		else
+		{
+			S a; if (cap > 0) a.Reserve(cap); for (size_t k = 0; k < n; ++k) { Elem e = mk(ll(10 + k)); a.AddBack(e); }
+			a.Shrink(c); std::printf("cap %llu\n", (unsigned long long)a.GetCapacity());
+		}
 	}
 	else if (fn == "seginsert") guardChild<S, false>(n, 0, [=] (S& a) { Elem e = mk(5); a.Insert(i, c, e); });
 	else if (fn == "segrb") guardChild<S, false>(n, 0, [=] (S& a) { a.RemoveBack(c); });
